@@ -99,7 +99,9 @@ inline cocls::generator<int> body_int(const Prog *p, Gates *g) {
 }
 inline cocls::generator<val::Counted> body_counted(const Prog *p, Gates *g) {
     BodyGuard guard; int idx = 0; size_t gate = 0;
-    SCEN_GEN_BODY_LOOP(co_yield val::Counted(50 + idx))
+    // odd positions yield a variable of the body (an lvalue) that the body looks at again after the yield: the
+    // consumer's access - whatever its style - must have left it alone
+    SCEN_GEN_BODY_LOOP(if (idx & 1) { val::Counted cur(50 + idx); co_yield cur; if (cur.val() != 50 + idx) hz::fail("a variable of the generator body read %d after it was yielded with value %d: the consumer's access modified (moved from) it", cur.val(), 50 + idx); } else co_yield val::Counted(50 + idx))
 }
 inline cocls::generator<int, int> body_arg(const Prog *p, Gates *g) {
     BodyGuard guard; int idx = 0; size_t gate = 0;
